@@ -245,8 +245,10 @@ struct Gen {
 				s.e = genExpr(tt, 2);
 				if (malformed && !didMalform && rng.chance(1, 3)) {
 					didMalform = true;
-					switch (rng.below(3)) {
-						case 0: { Ty wrong = (tt.isBit || tt.w < 2) ? Ty{false, 2} : Ty{false, tt.w - 1}; if (!tt.isBit && tt.w < 2) { s.path.clear(); tt = Ty{}; } s.e = constOf(wrong); break; }      // width mismatch (narrower: a wider value silently grows a not yet read UInt)
+					unsigned kind = (unsigned)rng.below(3);
+					if (kind == 0 && !tt.isBit && tt.w < 2) kind = 2;   // a *wider* value silently grows a not yet read UInt: not a rejected program
+					switch (kind) {
+						case 0: { Ty wrong = tt.isBit ? Ty{false, 2} : Ty{false, tt.w - 1}; s.e = constOf(wrong); break; }      // width mismatch (narrower value, no expansion policy)
 						case 1: if (!v.ty.isBit) { s.path.clear(); s.path.push_back({S_SLICE, 0, 1}); Expr r; r.k = E_READ; r.ty = Ty{false, 1}; r.x = s.x; r.path.push_back({S_SLICE, v.ty.w, 1}); s.e = r; } else s.e = constOf(Ty{false, 2}); break; // slice read out of bounds (a slice *write* beyond the range is silently accepted by the frontend)
 						default: if (!v.ty.isBit) { s.path.clear(); s.path.push_back({S_BIT, v.ty.w, 0}); s.e = constOf(Ty{}); } else s.e = constOf(Ty{false, 3}); break;          // bit index out of bounds
 					}
